@@ -184,7 +184,7 @@ def expectToks : List Tok → Except Err (Nat × Option Nat)
   | t1 :: rest =>
     if t1.typ ≠ .coord then .error .value else
     match parseHumanized t1.text with
-    | .error e => .error e
+    | .error _ => .error .value
     | .ok a =>
       match rest with
       | [] => .error .value
@@ -195,7 +195,7 @@ def expectToks : List Tok → Except Err (Nat × Option Nat)
         | t3 :: _ =>
           if t3.typ ≠ .coord then .error .value else
           match parseHumanized t3.text with
-          | .error e => .error e
+          | .error _ => .error .value
           | .ok b => if b < a then .error .value else .ok (a, some b)
 
 /-- `cooler.util.parse_region_string` -/
@@ -209,7 +209,7 @@ def parseRegionString (s : Str) : Except Err (Str × Option Nat × Option Nat) :
     | [] => .ok (chrom, none, none)
     | p1 :: _ =>
       match expectToks (tokenize p1) with
-      | .error e => .error e
+      | .error _ => .error .value
       | .ok (a, b) => .ok (chrom, some a, b)
 
 /-! ### parse_region -/
@@ -224,38 +224,51 @@ def lookup : List (Str × Nat) → Str → Option Nat
   | [], _ => none
   | (k, v) :: rest, c => if k = c then some v else lookup rest c
 
+/-- `clen = chromsizes[chrom] if chromsizes is not None else None`; `KeyError` becomes
+    `ValueError("Unknown sequence label")` -/
+def chromLen (chrom : Str) : Option (List (Str × Nat)) → Except Err (Option Nat)
+  | none => .ok none
+  | some cs =>
+    match lookup cs chrom with
+    | some L => .ok (some L)
+    | none => .error .value
+
+/-- `end`, defaulting to the chromosome length -/
+def endOf (stop : Option Int) (clen : Option Nat) : Option Int :=
+  match stop with
+  | some e => some e
+  | none => clen.map Int.ofNat
+
+/-- `clen is not None and end > clen` -/
+def beyond (clen : Option Nat) (e : Int) : Bool :=
+  match clen with
+  | some L => decide (e > (L : Int))
+  | none => false
+
+/-- defaults and bounds of `parse_region` once the chromosome length is known -/
+def checkBounds (chrom : Str) (start stop : Option Int) (clen : Option Nat) :
+    Except Err (Str × Int × Int) :=
+  match endOf stop clen with
+  | none => .error .value                      -- "Cannot determine end coordinate."
+  | some e =>
+    if e < start.getD 0 then .error .value       -- "End cannot be less than start"
+    else if start.getD 0 < 0 then .error .value  -- "out of bounds"
+    else if beyond clen e then .error .value     -- "out of bounds"
+    else .ok (chrom, start.getD 0, e)
+
 /-- the part of `parse_region` after the triple has been obtained -/
 def checkRegion (chrom : Str) (start stop : Option Int) (chromsizes : Option (List (Str × Nat))) :
     Except Err (Str × Int × Int) :=
-  let clen? : Except Err (Option Nat) :=
-    match chromsizes with
-    | none => .ok none
-    | some cs =>
-      match lookup cs chrom with
-      | some L => .ok (some L)
-      | none => .error .value                -- KeyError → ValueError("Unknown sequence label")
-  match clen? with
-  | .error e => .error e
-  | .ok clen =>
-    let s : Int := start.getD 0
-    let e? : Option Int := match stop with
-      | some e => some e
-      | none => clen.map Int.ofNat
-    match e? with
-    | none => .error .value                  -- "Cannot determine end coordinate."
-    | some e =>
-      if e < s then .error .value
-      else if s < 0 then .error .value       -- "out of bounds"
-      else match clen with
-        | some L => if e > (L : Int) then .error .value else .ok (chrom, s, e)
-        | none => .ok (chrom, s, e)
+  match chromLen chrom chromsizes with
+  | .error _ => .error .value
+  | .ok clen => checkBounds chrom start stop clen
 
 /-- `cooler.util.parse_region` -/
 def parseRegion (reg : Reg) (chromsizes : Option (List (Str × Nat))) : Except Err (Str × Int × Int) :=
   match reg with
   | .str s =>
     match parseRegionString s with
-    | .error e => .error e
+    | .error _ => .error .value
     | .ok (c, a, b) => checkRegion c (a.map Int.ofNat) (b.map Int.ofNat) chromsizes
   | .triple c a b => checkRegion c a b chromsizes
 
